@@ -17,7 +17,7 @@ MANIFEST = {
     "technique": "exhaustive enumeration of the save/load configuration product against a format capability model and "
                  "independent byte/text readers",
     "text": "18 extensions x n_atoms {1,2,9,10,13} x n_frames {1,2,3} x cell {none, cubic, orthorhombic, triclinic, "
-            "per-frame varying} x magnitude {1e-3, 1, 90 nm} x sign {mixed, positive} x time {default, uniform 2 ps, "
+            "per-frame varying, three single-skew monoclinic cells, two small rhombohedral cells at the two-atom restart reader's box/velocity threshold} x magnitude {1e-3, 1, 90, 950 nm; 20 000 nm along z for binary formats} x sign {mixed, positive} x time {default, uniform 2 ps, "
             "non-uniform} x options (gro precision 1/3/5; pdb ter x header x bfactors) — quick runs a complete sub-product "
             "(atoms {1,9,10}, frames {1,3}, cells {none, orthorhombic, triclinic-varying}, magnitudes {1, 90}); each cell "
             "is saved, reloaded with mdtraj and read with an independent reader; frames/atoms must match, coordinates "
